@@ -22,6 +22,8 @@ use verif_harness::*;
 
 /// length of the honest chain behind the `worker` op
 const CHAIN: u64 = 16;
+/// length of the generated pool: heights above `CHAIN` are used by the size-threshold `worker` ops only
+const BIG_CHAIN: u64 = 420;
 
 struct C24 {
     rt: tokio::runtime::Runtime,
@@ -35,12 +37,12 @@ impl C24 {
         // every header is a few minutes old: inside any sampling window used below
         let first = (Time::now() - Duration::from_secs(3600)).unwrap();
         generator.set_time(first, Duration::from_secs(1));
-        let pool = generator.next_many_empty(CHAIN);
+        let pool = generator.next_many_empty(BIG_CHAIN);
         C24 { rt, pool }
     }
 
     fn span(&self, a: u64, b: u64) -> Option<Vec<ExtendedHeader>> {
-        if a >= 1 && a <= b && b <= CHAIN { Some(self.pool[(a - 1) as usize..b as usize].to_vec()) } else { None }
+        if a >= 1 && a <= b && b <= BIG_CHAIN { Some(self.pool[(a - 1) as usize..b as usize].to_vec()) } else { None }
     }
 
     fn worker(&self, head: u64, stored: Vec<BlockRange>, pruned: Vec<BlockRange>, limit: u64) -> String {
@@ -162,6 +164,19 @@ fn many_value(rng: &mut Rng, k: usize, base: u64) -> Vec<(u64, u64)> {
     v
 }
 
+/// a canonical value with exactly `k` ranges (lengths 1..=4, gaps 2..=5) starting at `base` whose LAST gap (the
+/// missing heights between the penultimate and the highest range) is exactly `top_gap` (S10)
+fn many_value_gap(rng: &mut Rng, k: usize, base: u64, top_gap: u64, short: bool) -> Vec<(u64, u64)> {
+    let mut v = Vec::with_capacity(k);
+    let mut s = base.max(2);
+    for i in 0..k {
+        let e = s + if short { rng.range(0, 1) } else { rng.range(0, 3) };
+        v.push((s, e));
+        s = e + if i + 2 == k { top_gap + 1 } else if short { 2 } else { *rng.pick(&[2, 2, 3, 4, 5]) };
+    }
+    v
+}
+
 impl Prop for C24 {
     fn id(&self) -> &'static str {
         "C24"
@@ -171,7 +186,12 @@ impl Prop for C24 {
          empty/full/alternating in quick) x every head 0..13 x every batch size 0..13; the same through \
          `pruned + stored` with the subset split into stored/pruned parts; random values of 0..4 ranges at \
          1, mid-u64 and ending at u64::MAX with heads at/around every boundary and u64::MAX and batch sizes \
-         0, 1, small, 512, u64::MAX; synced values with MANY ranges (9..64) with heads at/around the top and batch sizes around the gap below the highest range; the REAL Worker::fetch_next_batch + real InMemoryStore::insert of the \
+         0, 1, small, 512, u64::MAX; synced values with MANY ranges (9..64) with heads at/around the top and batch sizes around the gap below the highest range; \
+         size-threshold stress (tags big/..): values of 8, 32, 63, 65, 128, 129, 257, 1025 ranges (thorough: 7..2049, every power of two -1/+0/+1) \
+         whose gap below the highest range is exactly 63/64/65/511/512/513, heads caught-up and behind by gap-1/gap/gap+1, batch sizes \
+         1, gap-1, gap, gap+1, 64, 512, u64::MAX, also through `pruned + stored`; the REAL Worker + real InMemoryStore holding 9 / 17 / 33 / 65 \
+         (thorough 8..100) stored+pruned ranges (none / every third / all but the highest / only the highest pruned) on a 420-header chain, \
+         heads caught-up and behind by 1, 63, 64, 65, batch sizes around the gap and 63/64/65/512; the REAL Worker::fetch_next_batch + real InMemoryStore::insert of the \
          requested batch on an honest 16-header chain with the subset split into stored / pruned heights. \
          The store-ahead-of-head situation (where the one known finding lives) is sampled at ~1/40. Non-trivial = synced non-empty and limit > 0; distinct = distinct \
          (op, result)."
@@ -266,6 +286,103 @@ impl Prop for C24 {
                             "many/batch",
                             limit > 0,
                         );
+                    }
+                }
+            }
+        }
+        // size-threshold stress (S10): range counts straddling 8 / 32 / 64 / 128 / 256 / 1024 (9..64 are above), the gap
+        // below the highest range and the distance to the head exactly 63/64/65 and 511/512/513 with batch sizes +-1
+        let big_sizes: Vec<usize> = if thorough {
+            vec![7, 8, 31, 32, 63, 65, 127, 128, 129, 255, 256, 257, 511, 512, 513, 1023, 1024, 1025, 2049]
+        } else {
+            vec![8, 32, 63, 65, 128, 129, 257, 1025]
+        };
+        let gaps = [63u64, 64, 65, 511, 512, 513];
+        for (n, &k) in big_sizes.iter().enumerate() {
+            for rep in 0..(if thorough { 3 } else { 1 }) {
+                let gap = gaps[(n + rep) % gaps.len()];
+                let base = match (n + rep) % 3 {
+                    0 => 2,
+                    1 => (1u64 << 40) + rng.range(0, 5),
+                    _ => u64::MAX - 9 * k as u64 - 1300,
+                };
+                let v = many_value_gap(rng, k, base, gap, false);
+                let sv = fmt_vec(&v);
+                let (top_s, top_e) = v[k - 1];
+                let pen_e = v[k - 2].1;
+                assert_eq!(top_s - 1 - pen_e, gap);
+                let (st, pr): (Vec<_>, Vec<_>) = {
+                    let mut a = vec![];
+                    let mut b = vec![];
+                    for (i, r) in v.iter().enumerate() {
+                        if i % 3 != 1 { a.push(*r) } else { b.push(*r) }
+                    }
+                    (a, b)
+                };
+                let t = format!("big/{k}r-gap{gap}");
+                // caught up: the gap below the highest range, batch sizes around the gap and the named constants
+                // behind by exactly gap-1 / gap / gap+1 heights: batch sizes around that distance
+                for head in [top_e, top_e + gap - 1, top_e + gap, top_e + gap + 1, top_s, pen_e] {
+                    for limit in [1, gap - 1, gap, gap + 1, 64, 512, u64::MAX] {
+                        let sit = if top_e < head { "behind" } else if top_e == head { "caught-up" } else { "store-ahead" };
+                        if sit == "store-ahead" && !rng.chance(1, 10) {
+                            continue;
+                        }
+                        // (the Lean driver needs ~40 ms per op at 1025 ranges: a handful of those in quick)
+                        if !thorough && k > 300 && !((head == top_e || head == top_e + gap) && [gap, gap + 1, 512].contains(&limit)) {
+                            continue;
+                        }
+                        out.op(format!("fetch head={head} synced={sv} limit={limit}"), &format!("{t}/{sit}"), limit > 0);
+                        if rng.chance(1, 3) {
+                            out.op(
+                                format!("batch head={head} stored={} pruned={} limit={limit}", fmt_vec(&st), fmt_vec(&pr)),
+                                &format!("{t}/batch"),
+                                limit > 0,
+                            );
+                        }
+                    }
+                }
+            }
+        }
+        // the REAL Worker + real InMemoryStore with MANY stored / pruned ranges (pool of 420 headers)
+        let wsizes: Vec<usize> = if thorough { vec![8, 9, 16, 17, 32, 33, 64, 65, 100] } else { vec![9, 17, 33, 65] };
+        for (n, &k) in wsizes.iter().enumerate() {
+            for rep in 0..(if thorough { 4 } else { 1 }) {
+                let gap = [3u64, 8, 9, 16, 17, 33, 64, 65][(n + rep) % 8];
+                let wbase = 2 + rng.range(0, 3);
+                let v = many_value_gap(rng, k, wbase, gap, k > 40);
+                let (top_s, top_e) = v[k - 1];
+                assert!(top_e + 70 <= BIG_CHAIN);
+                // which ranges are pruned: none / every third / all but the highest / the highest only
+                for mode in 0..4usize {
+                    let (mut st, mut pr) = (vec![], vec![]);
+                    for (i, r) in v.iter().enumerate() {
+                        let pruned = match mode {
+                            0 => false,
+                            1 => i % 3 == 1,
+                            2 => i + 1 != k,
+                            _ => i + 1 == k,
+                        };
+                        if pruned { pr.push(*r) } else { st.push(*r) }
+                    }
+                    let heads = [top_e, top_e + 1, top_e + 63, top_e + 64, top_e + 65, top_s];
+                    let limits = [1, gap - 1, gap, gap + 1, 63, 64, 65, 512];
+                    for (hi, &head) in heads.iter().enumerate() {
+                        if head < top_e && !rng.chance(1, 6) {
+                            continue;
+                        }
+                        let picks: Vec<u64> = if thorough {
+                            limits.to_vec()
+                        } else {
+                            vec![limits[(hi + mode) % 8], limits[(hi + mode + 3) % 8]]
+                        };
+                        for limit in picks {
+                            out.op(
+                                format!("worker head={head} stored={} pruned={} limit={limit}", fmt_vec(&st), fmt_vec(&pr)),
+                                &format!("big/worker-{k}r/{}", ["nothing-pruned", "some-pruned", "only-top-stored", "top-pruned"][mode]),
+                                limit > 0,
+                            );
+                        }
                     }
                 }
             }
